@@ -337,6 +337,11 @@ def run_check(plug: Plugin, tier: str, seed: int, level_note=""):
         print(f"VIOLATION property={pid} replay={p} no-failing-input-found")
         return 1
     obl = obligations(pid)
+    chk = None
+    if tier == "thorough" and not obl["broken"] and os.environ.get("VERIF_NO_COQCHK") != "1":
+        # independent re-check of the property file and everything it depends on (runs beside the correspondence)
+        chk = subprocess.Popen(f"timeout 1800 coqchk -o -silent -Q {COQ} Curies Curies.props.{pid}", shell=True,
+                               stdout=subprocess.PIPE, stderr=subprocess.STDOUT, text=True)
     if not b["gen"]["ok"]:
         obl["broken"].append("translator (fail-closed): " + b["gen"]["detail"])
     rng = random.Random(seed_for(seed, pid, tier))
@@ -392,6 +397,14 @@ def run_check(plug: Plugin, tier: str, seed: int, level_note=""):
         log(f"[{pid}] harness/model glue problem: {glue[0]['error']}")
         rc = 1
         violations += 1
+    coqchk = None
+    if chk is not None:
+        out = chk.communicate()[0]
+        m_ax = re.search(r"\* Axioms:\s*(.*?)\n\s*\n", out, flags=re.S)
+        coqchk = {"cmd": f"coqchk -o -silent -Q coq Curies Curies.props.{pid}", "rc": chk.returncode,
+                  "axioms": m_ax.group(1).strip() if m_ax else None}
+        if chk.returncode != 0 or coqchk["axioms"] != "<none>":
+            obl["broken"].append(f"coqchk on props/{pid}: rc={chk.returncode} axioms={coqchk['axioms']} " + out[-800:])
     # failing inputs on the implementation
     seen_known = set()
     reported = 0
@@ -465,6 +478,7 @@ def run_check(plug: Plugin, tier: str, seed: int, level_note=""):
             "checker_cmd": f"coqc -Q coq Curies coq/props/{pid}.v (after make -C coq; Print Assumptions parsed)",
             "trusted_base": TRUSTED_BASE,
             "theorems": obl["theorems"],
+            "coqchk": coqchk,
             "broken_obligations": obl["broken"],
             "evaluations": evaluations,
             "distinct_nontrivial": len(nontriv),
